@@ -534,7 +534,7 @@ func runEngineInner(c Case, o *vt.Obs, oddSeen *int) *vt.Failure {
 			}
 		}
 	}
-	if cleanupsSinceRestart > 0 && len(cat) > 0 {
+	if cleanupsSinceRestart > 0 && len(cat) > 0 && !oddUsed {
 		// the case ends with the tables opened once more from the disks the cleanup rounds worked on
 		if err := fx.Restart(); err != nil {
 			vt.Inconclusive("C14 final engine restart: " + err.Error())
@@ -588,6 +588,13 @@ func same(got, want []model.Pair) error {
 		}
 	}
 	return nil
+}
+
+func init() {
+	// engine calls whose answer the check judges: an expired deadline / a raft group that has no leader at the moment is no answer
+	// ("create of absent table \"sys\" failed: timeout" was reported once as create-refused on a machine with a load average of 45)
+	vt.UnjudgedOnTimeout(prop+"/create-refused", prop+"/duplicate-create-accepted", prop+"/delete-refused", prop+"/delete-of-absent-table",
+		prop+"/table-unreadable", prop+"/write-to-absent-table", prop+"/read-of-absent-table", prop+"/restored-table-missing", prop+"/lookup-differs")
 }
 
 func TestC14(t *testing.T)        { vt.Check(t, prop, genCase, runEngine) }
